@@ -39,7 +39,15 @@ Two input families get clause ids of their own (prefix), so that a finding there
                           same happens one step later, after the 'extend' branch has made a 13-beat measure: 1 list in 12 000)
   `reseat_seated_no_exception` (reseating the seated RESULT raises: finding N6) keeps its plain id in the last two families.
 
+  again_<clause>          `reseat_call_change_call_again`: the clauses above for a call on list / map OBJECTS that every entry point has
+                          been called on before and that were then changed in place (see `history` below)
+
 Input dimensions of a case (all optional in the JSON `case`, defaults = the original enumeration):
+  history          dict(edit=bpm|append|none|other_list, ...): `changes` is the list AS IT IS at the checked call; it was built as it
+                   was before the change (bpm: change k had old_bpm; append: without its last change), every entry point of `forms` was
+                   called on it, then the same list object was changed in place (bpm field assigned / change appended; none: nothing,
+                   the same call twice; other_list: another list reseated in between).  TimingMap.reseat(): the map object was made
+                   from the earlier list, reseat() called, then its last change's bpm assigned / a BpmChangeOffset appended in place.
   metro / metros   beats per measure, one for the list or one per change (a change of metronome only on a measure line)
   num              how the numbers are handed over: fraction (default) | float | int | numpy | unnormalised
                    (Snap(0, position, m): the beat exceeds the measure and is normalised by Snap itself)
@@ -268,6 +276,75 @@ def _run_case(case):
         logging.disable(prev)
 
 
+def _sig(lst):
+    return sorted((float(b.bpm), float(b.metronome), int(b.snap.measure), Fraction(b.snap.beat), float(b.snap.metronome)) for b in lst)
+
+
+def _history_objects(case, hist, reseat_list, from_snap, forms, init):
+    """-> (list object, map object | None) as they are at the checked call, or None when the list is not what the case says it is now
+    (an earlier call changed its argument: the statement is silent about that, nothing is asserted then)."""
+    from reamber.algorithms.timing.utils.BpmChangeOffset import BpmChangeOffset
+
+    changes, metros, final = _build(case)
+    n = len(changes)
+    kind = hist["edit"]
+    order = case.get("order") or list(range(n))
+    pre = {k: v for k, v in case.items() if k != "history"}
+    ch = [list(c) for c in case["changes"]]
+    if kind == "bpm":
+        ch[hist["k"]][1] = hist["old_bpm"]
+    elif kind == "append":
+        assert order[-1] == n - 1
+        ch = ch[:-1]
+        pre["order"] = order[:-1]
+        if pre.get("metros"):
+            pre["metros"] = pre["metros"][:-1]
+    pre["changes"] = ch
+    pre_changes, pre_metros, lst = _build(pre)
+    t_final = _orig_times(changes)
+
+    def quiet(f):
+        try:
+            return f()
+        except Exception:  # noqa  (the earlier calls are judged by the other checks)
+            return None
+
+    def all_forms(l):
+        tm0 = None
+        if "list" in forms:
+            quiet(lambda: reseat_list(l))
+        if "from_snap" in forms:
+            quiet(lambda: from_snap(init, l, True))
+        if "tm_reseat" in forms:
+            tm0 = quiet(lambda: from_snap(init, l, False))
+            if tm0 is not None:
+                quiet(tm0.reseat)
+        return tm0
+
+    tm0 = all_forms(lst)
+    if kind == "other_list":
+        other = dict(pre, changes=[[p, str(Fraction(b) * 2)] for p, b in pre["changes"]])
+        all_forms(_build(other)[2])
+    # ---- the change, in place, on the objects used above
+    if kind == "bpm":
+        k = hist["k"]
+        lst[order.index(k)].bpm = final[order.index(k)].bpm
+        if tm0 is not None:
+            if k == n - 1:
+                max(tm0.bpm_changes_offset, key=lambda b: b.offset).bpm = final[order.index(k)].bpm
+            else:
+                tm0 = quiet(lambda: from_snap(init, lst, False))  # (an earlier bpm in offset form would move every later position)
+                if tm0 is not None:
+                    quiet(tm0.reseat)
+    elif kind == "append":
+        lst.append(final[-1])
+        if tm0 is not None:
+            tm0.bpm_changes_offset.append(BpmChangeOffset(final[-1].bpm, final[-1].metronome, float(_F(init) + t_final[-1])))
+    if _sig(lst) != _sig(final):
+        return None
+    return lst, tm0
+
+
 def _run_case_inner(case, TimingMap):
     failed = []
     changes, metros, lst = _build(case)
@@ -299,6 +376,14 @@ def _run_case_inner(case, TimingMap):
     else:
         reseat_list = TimingMap.reseat_bpm_changes_snap
         from_snap = lambda o, l, reseat: TimingMap.from_bpm_changes_snap(o, l, reseat=reseat)  # noqa: E731
+
+    hist = case.get("history")
+    tm0_used = None
+    if hist:
+        objs = _history_objects(case, hist, reseat_list, from_snap, forms, init)
+        if objs is None:
+            return []
+        lst, tm0_used = objs
 
     # ---- form 1: TimingMap.reseat_bpm_changes_snap(list)
     out = None
@@ -383,7 +468,7 @@ def _run_case_inner(case, TimingMap):
                 failed.append(("tm_reseat_seated_timeline_unchanged", f"seated map {[(float(a), b) for a, b in tl]} reseated to {[(float(a), b) for a, b in tl2]}"))
     if "tm_reseat" in forms:
         try:
-            tm0 = from_snap(init, lst, False)
+            tm0 = tm0_used if tm0_used is not None else from_snap(init, lst, False)
             tm1 = tm0.reseat()
         except Exception as ex:  # noqa
             tm1 = None
@@ -409,6 +494,8 @@ def _run_case_inner(case, TimingMap):
     for w, d in failed:
         # (a seated RESULT that raises when reseated is one finding, N6, whatever the metronome / with coincident changes: no prefix there)
         w = w if (fam in ("other_metronome_", "coincident_") and w == "reseat_seated_no_exception") else fam + w
+        if hist:
+            w = "again_" + w
         if w not in seen:
             seen.add(w)
             uniq.append((w, d))
@@ -766,6 +853,43 @@ def reseat_number_types_and_entry_points(rep):
     _drive(rep, gen(), 30, 300)
 
 
+@bounded("C11", note="call - legitimate change - call again: every entry point called on a list / map object, the object changed in place (a bpm assigned, a change appended, nothing, another list reseated in between), then called again - the result is that of the list as it is now")
+def reseat_call_change_call_again(rep):
+    rng = rep.rng
+    N = rep.n(1500, 15000)
+    rep.bound = (
+        f"{N} seeded lists of 2..5 changes (as they are at the checked call), gaps up to 8 beats on the half-beat and 1/48 grids (a quarter whole measures), bpm from the pool, metronome 4, initial offset from {INITS}, "
+        "shuffled order (half); history: 35 % the bpm field of one change (any; for TimingMap.reseat() in place only the last) assigned after the first calls, 35 % the last change appended after the first calls "
+        "(to the list handed over / as a BpmChangeOffset to the map's own list), 15 % nothing changed (the same call twice on the same objects), 15 % another list (double tempo) reseated in between; "
+        "list form, from_bpm_changes_snap(reseat=True), TimingMap.reseat(); where an earlier call changed the list it was given nothing is asserted"
+    )
+    rep.rule = "a case is one tempo list + initial offset + history; non-trivial when some change is off a measure line"
+
+    def gen():
+        k = 0
+        while k < N:
+            ch = _random_list(rng, rng.choice([2, 48]))
+            if _family(ch):
+                continue
+            n = len(ch)
+            r = rng.random()
+            if r < 0.35:
+                i = rng.randrange(n)
+                old = rng.choice([b for b in POOL if Fraction(b) != ch[i][1]])
+                hist = dict(edit="bpm", k=i, old_bpm=old)
+            elif r < 0.7:
+                hist = dict(edit="append")
+            else:
+                hist = dict(edit="none" if r < 0.85 else "other_list")
+            order = None
+            if rng.random() < 0.5:
+                order = _shuffled(rng, n - 1) + [n - 1] if hist["edit"] == "append" else _shuffled(rng, n)
+            k += 1
+            yield ch, rng.choice(INITS), None, order, dict(history=hist)
+
+    _drive(rep, gen(), 20, 200)
+
+
 def _replay(case, what):
     failed = _run_case(case)
     hit = [d for w, d in failed if w == what]
@@ -782,5 +906,6 @@ for _n in (
     "reseat_single_and_coincident",
     "reseat_other_metronomes",
     "reseat_number_types_and_entry_points",
+    "reseat_call_change_call_again",
 ):
     replayer(_n)(_replay)
